@@ -8,7 +8,9 @@
 #include "common/vh.h"
 #include "common/st_common.h"
 #include "oracle/flag.h"
+#include <climits>
 #include <cmath>
+#include <type_traits>
 
 namespace c04 {
 
@@ -16,12 +18,21 @@ using oracle::Simplex;
 using oracle::WGraph;
 typedef std::map<Simplex, double> Cx;
 
+// option sets that the first version of the check never instantiated
+struct Opt_int_full : Gudhi::Simplex_tree_options_full_featured { typedef int Filtration_value; };  // integral values, link_nodes_by_label
+
+// values: option sets with an integral Filtration_value get the 0.5-grid scaled by 2, option sets that store no value get 0 everywhere
+template <class ST> constexpr double value_scale() {
+  return !ST::Options::store_filtration ? 0.0 : (std::is_integral<typename ST::Filtration_value>::value ? 2.0 : 1.0);
+}
+
 template <class ST>
 Cx dump(const ST& st) {
   Cx r;
   for (auto sh : st.complex_simplex_range()) r[stc::word(st, sh)] = (double)st.filtration(sh);
   return r;
 }
+inline int cxdim(const Cx& c) { int d = -1; for (auto& kv : c) d = std::max(d, (int)kv.first.size() - 1); return d; }
 
 inline std::string diff(const Cx& got, const Cx& want) {
   std::string d;
@@ -49,18 +60,80 @@ inline std::string cls(const Cx& got, const Cx& want, const WGraph& g, int max_d
   return diff_class(got, want);
 }
 
-// random weighted graph: vertex values <= incident edge values, 5-value grid (ties)
-inline WGraph random_graph(vh::Rng& r, int nmax, bool sparse_labels) {
-  int n = 1 + (int)r.below(nmax);
+// Second, independent enumeration (recursive extension of cliques by larger common neighbours), usable beyond the 2^n bound
+// of oracle/flag.h: all cliques with at most max_dim+1 vertices (max_dim < 0: no limit), value = max over vertices and edges.
+inline void clique_ext(const WGraph& g, int max_dim, std::vector<int>& cur, double val, const std::vector<int>& cand, Cx& out) {
+  for (size_t a = 0; a < cand.size(); ++a) {
+    int v = cand[a];
+    double nv = std::max(val, g.vval[v]);
+    for (int u : cur) nv = std::max(nv, g.w[u][v]);
+    cur.push_back(v);
+    Simplex s; for (int u : cur) s.push_back(g.label[u]);
+    std::sort(s.begin(), s.end());
+    out[s] = nv;
+    if (max_dim < 0 || (int)cur.size() < max_dim + 1) {
+      std::vector<int> nc; for (size_t b = a + 1; b < cand.size(); ++b) if (g.has_edge(v, cand[b])) nc.push_back(cand[b]);
+      if (!nc.empty()) clique_ext(g, max_dim, cur, nv, nc, out);
+    }
+    cur.pop_back();
+  }
+}
+inline Cx clique_enum(const WGraph& g, int max_dim) {
+  Cx out; std::vector<int> cur, cand; for (int i = 0; i < g.n(); ++i) cand.push_back(i);
+  clique_ext(g, max_dim, cur, -std::numeric_limits<double>::infinity(), cand, out);
+  return out;
+}
+
+// What the statement gives for the argument max_dim of a route:
+//  one-shot routes (expansion, expansion_with_blockers, Rips): cliques with at most max_dim+1 vertices; a NEGATIVE max_dim leaves the
+//    inserted graph as it is (expansion "expands the one-skeleton until dimension max_dim": it adds nothing and never removes);
+//  incremental route: -1 is documented as "no limit"; any other dim_max < 1 truncates below the edges (vertices are inserted by
+//    an explicit request, so they stay).
+// (clamped: the enumerations compute max_dim + 1; no harness graph has a clique of 1000 vertices)
+inline int one_shot_model_dim(int max_dim) { return max_dim < 0 ? 1 : std::min(max_dim, 1000); }
+inline int incremental_model_dim(int dim_max) { return dim_max == -1 ? -1 : (dim_max < -1 ? 0 : std::min(dim_max, 1000)); }
+inline std::string dim_class(int max_dim, int cn) {
+  if (max_dim == 0) return "";
+  if (max_dim < 0) return max_dim == -1 ? ",max_dim=-1" : ",negative_max_dim";
+  return std::string(max_dim < cn - 1 ? ",truncated" : ",full") + (max_dim >= 100 ? ",huge_max_dim" : "");
+}
+inline int extreme_dim(vh::Rng& r) { static const int d[] = {INT_MAX, INT_MIN, -1, -2, 100}; return d[r.below(5)]; }
+
+// labels: 0 contiguous, 1 sparse, 2 sparse with the extremes of Vertex_handle (never -1 = null_vertex)
+inline void relabel(vh::Rng& r, WGraph& g, int mode) {
+  if (mode == 0) return;
+  static const long pool[] = {-7, -2, 0, 3, 4, 9, 40, 100, 1000, 50000, 1 << 20, 1 << 30, (long)INT_MAX - 1, (long)INT_MIN + 1};
+  std::set<long> s;
+  if (mode == 2 && g.n() >= 1) s.insert((long)INT_MAX);
+  if (mode == 2 && g.n() >= 2) s.insert((long)INT_MIN);
+  while ((int)s.size() < g.n()) s.insert(pool[r.below(mode == 2 ? 14 : 12)]);
+  int i = 0; for (long x : s) g.label[i++] = x;
+}
+inline bool contiguous_labels(const WGraph& g) { for (int i = 0; i < g.n(); ++i) if (g.label[i] != i) return false; return true; }
+
+// random weighted graph: vertex values <= incident edge values, 5-value grid (ties); now and then the graph without vertices
+inline WGraph random_graph(vh::Rng& r, int nmax, int label_mode, double scale) {
+  int n = r.chance(1, 25) ? 0 : 1 + (int)r.below(nmax);
   WGraph g = oracle::make_graph(n);
-  if (sparse_labels) { static const long pool[] = {-7, -2, 0, 3, 4, 9, 40, 100, 1000, 50000, 1 << 20, 1 << 30}; std::set<long> s; while ((int)s.size() < n) s.insert(pool[r.below(12)]); int i = 0; for (long x : s) g.label[i++] = x; }
+  relabel(r, g, label_mode);
   int kind = (int)r.below(4);  // 0 complete, 1 sparse, 2 medium, 3 all-equal weights
-  for (int i = 0; i < n; ++i) g.vval[i] = (kind == 3) ? 1.0 : 0.5 * (double)r.below(3);
+  for (int i = 0; i < n; ++i) g.vval[i] = scale * ((kind == 3) ? 1.0 : 0.5 * (double)r.below(3));
   for (int i = 0; i < n; ++i) for (int j = i + 1; j < n; ++j) {
     bool e = kind == 0 || kind == 3 ? !r.chance(1, 12) : kind == 1 ? r.chance(1, 4) : r.chance(3, 5);
     if (!e) continue;
-    double w = (kind == 3) ? 1.0 : std::max({g.vval[i], g.vval[j], 0.5 * (double)r.below(6)});
+    double w = (kind == 3) ? scale * 1.0 : std::max({g.vval[i], g.vval[j], scale * 0.5 * (double)r.below(6)});
     g.w[i][j] = g.w[j][i] = w;
+  }
+  return g;
+}
+// G(n, p) with the same value rules
+inline WGraph random_graph_np(vh::Rng& r, int n, unsigned per_mille, double scale) {
+  WGraph g = oracle::make_graph(n);
+  bool equal = r.chance(1, 5);
+  for (int i = 0; i < n; ++i) g.vval[i] = scale * (equal ? 1.0 : 0.5 * (double)r.below(3));
+  for (int i = 0; i < n; ++i) for (int j = i + 1; j < n; ++j) {
+    if (r.below(1000) >= per_mille) continue;
+    g.w[i][j] = g.w[j][i] = equal ? scale * 1.0 : std::max({g.vval[i], g.vval[j], scale * 0.5 * (double)r.below(6)});
   }
   return g;
 }
@@ -69,10 +142,18 @@ inline std::string show_graph(const WGraph& g) {
   for (int i = 0; i < g.n(); ++i) for (int j = i + 1; j < g.n(); ++j) if (g.has_edge(i, j)) o << "(" << g.label[i] << "," << g.label[j] << ":" << g.w[i][j] << ")";
   return o.str();
 }
+// the subgraph induced by the vertices marked present
+inline WGraph induced(const WGraph& g, const std::vector<char>& present) {
+  std::vector<int> idx; for (int i = 0; i < g.n(); ++i) if (present[i]) idx.push_back(i);
+  WGraph sub = oracle::make_graph((int)idx.size());
+  for (size_t a = 0; a < idx.size(); ++a) { sub.label[a] = g.label[idx[a]]; sub.vval[a] = g.vval[idx[a]]; for (size_t b = 0; b < idx.size(); ++b) sub.w[a][b] = g.w[idx[a]][idx[b]]; }
+  return sub;
+}
 
-// deterministic blocker predicates: pure functions of the vertex word, never block dimension <= 1
+// deterministic blocker predicates: pure functions of the vertex word, never block dimension <= 1; optionally the oracle also
+// customises the value of the simplices it lets through (documented use of the callback) by a dyadic bump >= 0 of the word
 struct Blocker {
-  int kind; long a; unsigned b;
+  int kind; long a; unsigned b; bool customise = false; double bump_unit = 0.25;
   bool operator()(const Simplex& s) const {
     if (s.size() < 3) return false;
     switch (kind) {
@@ -82,11 +163,89 @@ struct Blocker {
       default: return true;
     }
   }
+  double bump(const Simplex& s) const { uint64_t h = 11; for (long x : s) h = vh::hash_mix(h, (uint64_t)x + 77); return bump_unit * (double)(h % 4); }
   std::string name() const { static const char* n[] = {"hash_mod", "contains_vertex", "size_at_least", "always"}; return n[kind]; }
 };
+// Model of the blocker-driven expansion, dimension by dimension: a clique of >= 3 vertices is a candidate iff all its facets were
+// kept; the oracle sees it with the largest (customised) value of its facets; kept candidates get that value (+ the bump).
+inline Cx blocked_model(const Cx& all, const Blocker& bl, Cx* seen_want) {
+  std::vector<Simplex> ss; for (auto& kv : all) ss.push_back(kv.first);
+  std::stable_sort(ss.begin(), ss.end(), [](const Simplex& a, const Simplex& b) { return a.size() < b.size(); });
+  Cx out;
+  for (auto& s : ss) {
+    if (s.size() <= 2) { out[s] = all.at(s); continue; }
+    bool faces = true; double v = -std::numeric_limits<double>::infinity();
+    for (size_t k = 0; k < s.size() && faces; ++k) {
+      Simplex f; for (size_t t = 0; t < s.size(); ++t) if (t != k) f.push_back(s[t]);
+      auto it = out.find(f); if (it == out.end()) faces = false; else v = std::max(v, it->second);
+    }
+    if (!faces) continue;
+    if (seen_want) (*seen_want)[s] = v;
+    if (bl(s)) continue;
+    out[s] = bl.customise ? v + bl.bump(s) : v;
+  }
+  return out;
+}
 
+// ---------------------------------------------------------------- how the 1-skeleton is handed to the tree
+struct SkelPlan {
+  int kind = 0;                              // 0 Proximity_graph (directedS), 1 undirectedS, 2 bidirectionalS, 3 insert_simplex
+  std::vector<std::pair<int, int>> edges;    // (source, target) as given: maybe reversed, maybe a second time (same value)
+  std::vector<int> vorder;                   // kind 3: order of the vertices
+  bool reversed = false, doubled = false;
+  std::string name() const { static const char* n[] = {"directed", "undirected", "bidirectional", "insert_simplex"}; return std::string(n[kind]) + (reversed ? "+rev" : "") + (doubled ? "+dup" : ""); }
+};
+// ordered_vertices: Options::contiguous_vertices wants the vertex set to be 0..k-1 at all times
+inline SkelPlan make_plan(vh::Rng& r, const WGraph& g, bool ordered_vertices) {
+  SkelPlan p;
+  unsigned k = (unsigned)r.below(10);
+  p.kind = !contiguous_labels(g) ? 3 : (k < 4 ? 0 : k < 6 ? 1 : k < 8 ? 2 : 3);
+  bool variants = r.chance(2, 3);
+  for (int i = 0; i < g.n(); ++i) for (int j = i + 1; j < g.n(); ++j) if (g.has_edge(i, j)) p.edges.emplace_back(i, j);
+  for (int i = 0; i < g.n(); ++i) p.vorder.push_back(i);
+  if (variants) {
+    r.shuffle(p.edges); if (!ordered_vertices) r.shuffle(p.vorder);
+    size_t ne = p.edges.size();
+    for (size_t e = 0; e < ne; ++e) {
+      if (r.chance(1, 3)) { std::swap(p.edges[e].first, p.edges[e].second); p.reversed = true; }
+      if (r.chance(1, 8)) { auto d = p.edges[e]; if (r.chance(1, 2)) std::swap(d.first, d.second); p.edges.insert(p.edges.begin() + r.below(p.edges.size() + 1), d); p.doubled = true; }
+    }
+  }
+  return p;
+}
+template <class ST, class Dir>
+void insert_boost_graph(ST& st, const WGraph& g, const SkelPlan& p) {
+  typedef typename ST::Filtration_value FV;
+  typedef boost::adjacency_list<boost::vecS, boost::vecS, Dir, boost::property<Gudhi::vertex_filtration_t, FV>, boost::property<Gudhi::edge_filtration_t, FV>> Gr;
+  Gr gr(g.n());
+  for (int i = 0; i < g.n(); ++i) boost::put(Gudhi::vertex_filtration_t(), gr, i, (FV)g.vval[i]);
+  for (auto& e : p.edges) boost::add_edge(e.first, e.second, (FV)g.w[e.first][e.second], gr);
+  st.insert_graph(gr);
+}
 template <class ST>
-void insert_graph(ST& st, const WGraph& g) {
+void build_skeleton(vh::Case& c, ST& st, const WGraph& g, const SkelPlan& p) {
+  typedef typename ST::Filtration_value FV;
+  typedef typename ST::Vertex_handle VH;
+  switch (p.kind) {
+    case 0: insert_boost_graph<ST, boost::directedS>(st, g, p); break;   // = Gudhi::Proximity_graph<ST>
+    case 1: insert_boost_graph<ST, boost::undirectedS>(st, g, p); break;
+    case 2: insert_boost_graph<ST, boost::bidirectionalS>(st, g, p); break;
+    default:
+      for (int i : p.vorder) st.insert_simplex(std::vector<VH>{(VH)g.label[i]}, (FV)g.vval[i]);
+      for (auto& e : p.edges) st.insert_simplex(std::vector<VH>{(VH)g.label[e.first], (VH)g.label[e.second]}, (FV)g.w[e.first][e.second]);
+  }
+  (void)c;
+}
+inline void count_plan(vh::Case& c, const SkelPlan& p, const WGraph& g) {
+  static const char* n[] = {"graph.directed", "graph.undirected", "graph.bidirectional", "graph.insert_simplex_skeleton"};
+  c.count(n[p.kind]);
+  if (p.reversed) c.count("graph.reversed_edges");
+  if (p.doubled) c.count("graph.duplicate_edges");
+  if (g.n() == 0) c.count("graph.empty");
+  if (g.n() > 0 && (g.label.back() == (long)INT_MAX || g.label.front() == (long)INT_MIN)) c.count("graph.extreme_labels");
+}
+template <class ST>
+void insert_graph(ST& st, const WGraph& g) {  // the plain route (labels 0..n-1)
   typedef typename ST::Filtration_value FV;
   Gudhi::Proximity_graph<ST> pg(g.n());
   for (int i = 0; i < g.n(); ++i) boost::put(Gudhi::vertex_filtration_t(), pg, i, (FV)g.vval[i]);
@@ -94,89 +253,192 @@ void insert_graph(ST& st, const WGraph& g) {
   st.insert_graph(pg);
 }
 
+// a tree holding exactly the filtered complex cx, built simplex by simplex (faces first)
+template <class ST>
+void build_from_cx(ST& st, const Cx& cx) {
+  std::vector<const Simplex*> order; for (auto& kv : cx) order.push_back(&kv.first);
+  std::stable_sort(order.begin(), order.end(), [](const Simplex* a, const Simplex* b) { return a->size() < b->size(); });
+  for (auto* s : order) st.insert_simplex(stc::to_vh<ST>(*s), (typename ST::Filtration_value)cx.at(*s));
+}
+// What a route's tree says about itself, against the complex it holds (`cx` is the complex that was already compared, simplex
+// by simplex, with the model): dimension(), its bound, num_simplices(), and operator== with a tree of the same filtered complex.
+template <class ST>
+bool tree_checks(vh::Case& c, const ST& st, const Cx& cx, const std::string& route, const std::string& sig0) {
+  const int d = cxdim(cx);
+  const std::string sig = sig0 + (cx.empty() ? ",empty_complex" : "");
+  c.count("cmp.dimension");
+  if (cx.empty()) c.count("cmp.dimension_of_empty_complex");
+  int ub = st.upper_bound_dimension();
+  if (ub < d) { c.violation(route + ".upper_bound_dimension", sig, "upper_bound_dimension()=" + vh::str(ub) + " < largest simplex dimension " + vh::str(d)); return false; }
+  int dd = st.dimension();
+  if (dd != d) { c.violation(route + ".dimension", sig, "dimension()=" + vh::str(dd) + ", largest simplex dimension " + vh::str(d)); return false; }
+  c.count("cmp.num_simplices");
+  if (st.num_simplices() != cx.size()) { c.violation(route + ".num_simplices", sig, "num_simplices()=" + vh::str(st.num_simplices()) + ", the complex has " + vh::str(cx.size())); return false; }
+  ST ref; build_from_cx(ref, cx);
+  c.count("cmp.equal_to_model_tree");
+  if (!(st == ref) || !(ref == st) || st != ref) { c.violation(route + ".equal_to_model_tree", sig, "operator== with a tree built simplex by simplex from the same filtered complex is false"); return false; }
+  return true;
+}
+
 // routes 1, 2, 5 on one option set
 template <class Options>
 void run_expansion(vh::Case& c, const std::string& optname) {
   typedef Gudhi::Simplex_tree<Options> ST;
+  typedef typename ST::Simplex_handle SH;
+  typedef typename ST::Filtration_value FV;
   vh::Rng& r = c.rng;
-  WGraph g = random_graph(r, 9, false);
-  int max_dim = r.chance(1, 20) ? 0 : 1 + (int)r.below(6);
-  c.log("[" + optname + "] graph " + show_graph(g) + " max_dim=" + vh::str(max_dim));
-  Cx want = oracle::flag_complex(g, max_dim);
+  const double sc = value_scale<ST>();
+  unsigned lm = Options::contiguous_vertices ? 0 : (unsigned)r.below(8);  // contiguous_vertices: labels 0..n-1 are a documented precondition
+  WGraph g = random_graph(r, 9, lm < 5 ? 0 : lm < 7 ? 1 : 2, sc);
+  int max_dim = r.chance(1, 20) ? 0 : r.chance(1, 12) ? extreme_dim(r) : 1 + (int)r.below(6);
+  SkelPlan plan = make_plan(r, g, Options::contiguous_vertices);
+  count_plan(c, plan, g);
+  c.log("[" + optname + "] graph " + show_graph(g) + " max_dim=" + vh::str(max_dim) + " skeleton=" + plan.name());
+  if (max_dim < 0 || max_dim >= 100) c.count("arg.extreme_max_dim");
+  Cx want = oracle::flag_complex(g, one_shot_model_dim(max_dim));
+  if (r.chance(1, 8)) {  // the two enumerations of the model agree
+    c.count("oracle.cross_checked");
+    if (clique_enum(g, one_shot_model_dim(max_dim)) != want) { c.violation("harness.oracle_mismatch", "flag_complex_vs_clique_enum", "the two clique enumerations differ on " + show_graph(g)); return; }
+  }
   int cn = oracle::clique_number(g);
   if (cn >= 4) c.count("graph.clique_number_4plus");
-  std::string gsig = "opts=" + optname + (max_dim == 0 ? "" : max_dim < cn - 1 ? ",truncated" : ",full");
+  std::string gsig = "opts=" + optname + dim_class(max_dim, cn) + ",skel=" + plan.name();
+  const std::string tsig = "opts=" + optname + (max_dim < 0 || max_dim >= 100 ? ",extreme_max_dim" : "");  // coarse: what the tree says about itself
+  auto known_corner = [&](const Cx& got) { return max_dim == 0 && only_graph_edges_kept(got, want, g); };
+  ST st1, st2;
   {  // route 1
-    ST st; insert_graph(st, g); st.expansion(max_dim);
-    Cx got = dump(st);
+    build_skeleton(c, st1, g, plan); st1.expansion(max_dim);
+    Cx got = dump(st1);
     c.count("cmp.expansion");
     // (each route builds its own tree: the recorded max_dim = 0 deviation of one route must not hide the next routes)
-    if (got != want) { c.violation("expansion.clique_complex", gsig + cls(got, want, g, max_dim), "insert_graph+expansion differs from the clique complex:" + diff(got, want)); if (!(max_dim == 0 && only_graph_edges_kept(got, want, g))) return; }
+    if (got != want) { c.violation("expansion.clique_complex", gsig + cls(got, want, g, max_dim), "skeleton+expansion differs from the clique complex:" + diff(got, want)); if (!known_corner(got)) return; }
+    if (!tree_checks(c, st1, got, "expansion", tsig)) return;
   }
   {  // route 2: blocker-driven expansion with an oracle that never blocks
-    ST st; insert_graph(st, g); st.expansion_with_blockers(max_dim, [](typename ST::Simplex_handle) { return false; });
-    Cx got = dump(st);
+    build_skeleton(c, st2, g, plan); st2.expansion_with_blockers(max_dim, [](SH) { return false; });
+    Cx got = dump(st2);
     c.count("cmp.expansion_never_blocking");
-    if (got != want) { c.violation("blockers.never_blocking", gsig + cls(got, want, g, max_dim), "expansion_with_blockers(never) differs from the clique complex:" + diff(got, want)); if (!(max_dim == 0 && only_graph_edges_kept(got, want, g))) return; }
+    if (got != want) { c.violation("blockers.never_blocking", gsig + cls(got, want, g, max_dim), "expansion_with_blockers(never) differs from the clique complex:" + diff(got, want)); if (!known_corner(got)) return; }
+    if (!tree_checks(c, st2, got, "blockers", tsig)) return;
   }
-  {  // route 5: deterministic blocker predicate
-    Blocker bl{(int)r.below(4), g.label[r.below(g.n())], 2 + (unsigned)r.below(3)};
+  c.count("cmp.routes_operator_eq");
+  if (!(st1 == st2)) { c.violation("routes.expansion_vs_never_blocking", tsig + ",operator==", "the trees of expansion and of expansion_with_blockers(never) hold the same simplices and values but compare unequal"); return; }
+  {  // route 5: deterministic blocker predicate, which may also customise the values
+    Blocker bl{(int)r.below(4), g.n() ? g.label[r.below(g.n())] : 0, 2 + (unsigned)r.below(3)};
     if (bl.kind == 2) bl.b = 3 + (unsigned)r.below(3);
-    ST st; insert_graph(st, g);
-    size_t calls = 0;
-    st.expansion_with_blockers(max_dim, [&](typename ST::Simplex_handle sh) { ++calls; return bl(stc::word(st, sh)); });
+    bl.customise = ST::Options::store_filtration && r.chance(1, 2);
+    bl.bump_unit = std::is_integral<FV>::value ? 1.0 : 0.25;
+    ST st; build_skeleton(c, st, g, plan);
+    Cx seen; bool twice = false;
+    st.expansion_with_blockers(max_dim, [&](SH sh) {
+      Simplex s = stc::word(st, sh);
+      if (!seen.emplace(s, (double)st.filtration(sh)).second) twice = true;
+      if (bl(s)) return true;
+      if (bl.customise) st.assign_filtration(sh, (FV)((double)st.filtration(sh) + bl.bump(s)));
+      return false;
+    });
     Cx got = dump(st);
-    Cx wantb = oracle::largest_unblocked(want, [&](const Simplex& s) { return bl(s); });
+    Cx seen_want;
+    Cx wantb = blocked_model(want, bl, &seen_want);
+    if (max_dim < 2) seen_want.clear();  // nothing above the edges is a candidate
+    std::string bsig = gsig + ",pred=" + bl.name() + (bl.customise ? ",customised_values" : "");
+    if (!bl.customise && wantb != oracle::largest_unblocked(want, [&](const Simplex& s) { return bl(s); })) { c.violation("harness.oracle_mismatch", "blocked_model_vs_largest_unblocked", "the two models of the blocked expansion differ on " + show_graph(g)); return; }
     bool blocked_some = wantb.size() < want.size();
-    int topdim = -1; for (auto& kv : wantb) topdim = std::max(topdim, (int)kv.first.size() - 1);
+    int topdim = cxdim(wantb);
     if (blocked_some) c.count("blockers.something_blocked");
     if (blocked_some && topdim >= 2) { c.count("blockers.blocked_and_higher_survives"); }
+    if (bl.customise && topdim >= 2) c.count("blockers.customised_value_kept");
     c.count("cmp.expansion_with_blockers");
-    if (got != wantb) { c.violation("blockers.maximal_unblocked", gsig + ",pred=" + bl.name() + cls(got, wantb, g, max_dim), "expansion_with_blockers(" + bl.name() + ") differs from the largest blocked-simplex-free subcomplex:" + diff(got, wantb)); return; }
+    if (got != wantb) { c.violation("blockers.maximal_unblocked", bsig + cls(got, wantb, g, max_dim), "expansion_with_blockers(" + bl.name() + ") differs from the largest blocked-simplex-free subcomplex:" + diff(got, wantb)); if (!(max_dim == 0 && only_graph_edges_kept(got, wantb, g))) return; }
+    c.count("cmp.blocker_calls", seen.size());
+    if (twice) { c.violation("blockers.oracle_called_twice", bsig, "the blocker oracle was called twice on one simplex"); return; }
+    if (seen != seen_want) { c.violation("blockers.oracle_calls", bsig + diff_class(seen, seen_want), "simplices / values handed to the oracle differ from the candidates with the largest value of their facets:" + diff(seen, seen_want)); return; }
+    if (!tree_checks(c, st, got, "blockers", tsig + ",pred=" + bl.name())) return;
   }
   if (cn >= 3 && g.n() >= 4) c.nontrivial(vh::hash_str(show_graph(g) + vh::str(max_dim) + optname));
-  c.sample("{\"opts\":\"" + optname + "\",\"graph\":\"" + vh::jesc(show_graph(g)) + "\",\"max_dim\":" + vh::str(max_dim) + ",\"cliques\":" + vh::str(want.size()) + "}");
+  c.sample("{\"opts\":\"" + optname + "\",\"graph\":\"" + vh::jesc(show_graph(g)) + "\",\"max_dim\":" + vh::str(max_dim) + ",\"skeleton\":\"" + plan.name() + "\",\"cliques\":" + vh::str(want.size()) + "}");
 }
 
-// routes 3 and 4: incremental edge insertion (link_nodes_by_label option sets)
+// routes 3 and 4: incremental edge insertion (link_nodes_by_label option sets), with removals in between
 template <class Options>
 void run_incremental(vh::Case& c, const std::string& optname) {
   typedef Gudhi::Simplex_tree<Options> ST;
   typedef typename ST::Vertex_handle VH;
   typedef typename ST::Filtration_value FV;
+  typedef typename ST::Simplex_handle SH;
   vh::Rng& r = c.rng;
-  WGraph g = random_graph(r, 8, r.chance(1, 2));
-  int max_dim = r.chance(1, 4) ? -1 : (r.chance(1, 15) ? 0 : 1 + (int)r.below(5));
+  const double sc = value_scale<ST>();
+  unsigned lm = (unsigned)r.below(6);
+  WGraph g = random_graph(r, 8, lm < 3 ? 0 : lm < 5 ? 1 : 2, sc);
+  const int n = g.n();
+  int max_dim = r.chance(1, 4) ? -1 : (r.chance(1, 15) ? 0 : r.chance(1, 12) ? extreme_dim(r) : 1 + (int)r.below(5));
+  const int mdim = incremental_model_dim(max_dim);
   bool in_order = r.chance(1, 2);
-  c.log("[" + optname + "] graph " + show_graph(g) + " max_dim=" + vh::str(max_dim) + (in_order ? " filtration order" : " random order"));
+  const bool removals = r.chance(1, 2);     // removal steps between the insertions
+  const bool accumulate = r.chance(1, 2);   // added_simplices is not emptied between the calls (documented: new simplices are appended)
+  c.log("[" + optname + "] graph " + show_graph(g) + " max_dim=" + vh::str(max_dim) + (in_order ? " filtration order" : " random order") + (removals ? " with removals" : "") + (accumulate ? " accumulating" : ""));
+  if (n == 0) c.count("graph.empty");
+  if (n > 0 && (g.label.back() == (long)INT_MAX || g.label.front() == (long)INT_MIN)) c.count("graph.extreme_labels");
+  if (max_dim < -1 || max_dim >= 100) c.count("arg.extreme_max_dim");
   // insertion sequence: vertices and edges
   struct Item { int i, j; double v; };
   std::vector<Item> items;
-  for (int i = 0; i < g.n(); ++i) items.push_back({i, i, g.vval[i]});
-  for (int i = 0; i < g.n(); ++i) for (int j = i + 1; j < g.n(); ++j) if (g.has_edge(i, j)) items.push_back({i, j, g.w[i][j]});
+  for (int i = 0; i < n; ++i) items.push_back({i, i, g.vval[i]});
+  for (int i = 0; i < n; ++i) for (int j = i + 1; j < n; ++j) if (g.has_edge(i, j)) items.push_back({i, j, g.w[i][j]});
   r.shuffle(items);
-  if (in_order) std::stable_sort(items.begin(), items.end(), [](const Item& a, const Item& b) { if (a.v != b.v) return a.v < b.v; return (a.i == a.j) > (b.i == b.j); });
+  auto by_value = [](const Item& a, const Item& b) { if (a.v != b.v) return a.v < b.v; return (a.i == a.j) > (b.i == b.j); };
+  if (in_order) std::stable_sort(items.begin(), items.end(), by_value);
   else {  // any order, but an edge after its two vertices
-    std::vector<Item> out; std::set<int> seen; std::vector<Item> pending = items;
-    // simple pass: vertices keep their random positions, edges are delayed until both ends are present
-    std::vector<Item> delayed;
-    for (auto& it : pending) {
+    std::vector<Item> out; std::set<int> seen; std::vector<Item> delayed;
+    for (auto& it : items) {
       if (it.i == it.j) { out.push_back(it); seen.insert(it.i); std::vector<Item> still; for (auto& e : delayed) { if (seen.count(e.i) && seen.count(e.j)) out.push_back(e); else still.push_back(e); } delayed.swap(still); }
       else if (seen.count(it.i) && seen.count(it.j)) out.push_back(it); else delayed.push_back(it);
     }
     items.swap(out);
   }
   ST st;
-  WGraph cur = oracle::make_graph(g.n()); cur.label = g.label;
-  std::vector<char> present(g.n(), 0);
-  std::string sig = "opts=" + optname + (in_order ? ",filtration_order" : ",random_order") + (max_dim < 0 ? ",max_dim=-1" : "");
+  WGraph cur = oracle::make_graph(n); cur.label = g.label;
+  std::vector<char> present(n, 0), dead(n, 0);
+  bool prefix_used = false, removed_any = false, stale_insertion = false;
+  // `exact`: every value in the tree is the model's (always true while edges arrive in non-decreasing order of value; restored by
+  // make_filtration_non_decreasing, the documented monotonisation)
+  bool exact = true;
+  auto sig = [&]() {
+    return "opts=" + optname + (in_order ? ",filtration_order" : ",random_order") + (max_dim == -1 ? ",max_dim=-1" : max_dim < -1 ? ",negative_max_dim" : max_dim >= 100 ? ",huge_max_dim" : "") +
+           (prefix_used ? ",after_one_shot_prefix" : "") + (removed_any ? ",after_removal" : "");
+  };
+  auto model = [&]() { return oracle::flag_complex(induced(cur, present), mdim); };
+  auto max_present = [&]() { double m = -std::numeric_limits<double>::infinity(); for (int i = 0; i < n; ++i) if (present[i]) { m = std::max(m, cur.vval[i]); for (int j = i + 1; j < n; ++j) if (present[j] && cur.has_edge(i, j)) m = std::max(m, cur.w[i][j]); } return m; };
+  auto csig = [&]() { return "opts=" + optname + (removed_any ? ",after_removal" : "") + (stale_insertion ? ",insertion_under_stale_bound" : ""); };  // coarse
   Cx before;
+  // after every step: simplex set, values when they have to be right, the dimension bound; dimension() on half of the steps only,
+  // so that a bound left stale by a removal survives to the next insertion
+  auto observe = [&](const Cx& after, const char* what) {
+    Cx got = dump(st);
+    std::set<Simplex> gs, ws; for (auto& kv : got) gs.insert(kv.first); for (auto& kv : after) ws.insert(kv.first);
+    c.count("cmp.incremental_set");
+    if (gs != ws) { c.violation("incremental.simplex_set", sig(), std::string("after ") + what + ": " + diff(got, after)); return false; }
+    if (exact) { c.count("cmp.incremental_values"); if (got != after) { c.violation("incremental.values_in_order", sig() + diff_class(got, after), "values differ:" + diff(got, after)); return false; } }
+    int d = cxdim(after), ub = st.upper_bound_dimension();
+    c.count("cmp.upper_bound_dimension");
+    if (ub < d) { c.violation("incremental.upper_bound_dimension", csig(), "upper_bound_dimension()=" + vh::str(ub) + " < largest simplex dimension " + vh::str(d) + " after " + what); return false; }
+    if (ub > d && !after.empty()) c.count("state.stale_bound_after_step");
+    if (r.chance(1, 2)) {
+      c.log("dimension()");
+      int dd = st.dimension();
+      c.count("cmp.dimension");
+      if (ub > d && !after.empty()) c.count("cmp.dimension_under_stale_bound");
+      if (dd != d) { c.violation("incremental.dimension", csig() + (after.empty() ? ",empty_complex" : ""), "dimension()=" + vh::str(dd) + ", largest simplex dimension " + vh::str(d) + " after " + what); return false; }
+      stale_insertion = false;
+    }
+    return true;
+  };
   // mixed history: the first `prefix` items are given as a 1-skeleton and expanded in one shot, the remaining ones are
   // inserted incrementally into that tree (the property quantifies over every route; a tree "already holding simplices")
   size_t prefix = 0;
   if (max_dim >= 1 && items.size() >= 3 && r.chance(2, 5)) prefix = r.chance(1, 4) ? 1 + (size_t)r.below(items.size() - 1) : items.size() / 2 + (size_t)r.below(items.size() - items.size() / 2);
   if (prefix > 0) {
-    sig += ",after_one_shot_prefix";
+    prefix_used = true;
     c.count("hist.one_shot_prefix_then_incremental");
     for (size_t t = 0; t < prefix; ++t) {
       auto& it = items[t];
@@ -186,59 +448,142 @@ void run_incremental(vh::Case& c, const std::string& optname) {
     }
     c.log("expansion " + vh::str(max_dim));
     st.expansion(max_dim);
-    std::vector<int> idx; for (int i = 0; i < g.n(); ++i) if (present[i]) idx.push_back(i);
-    WGraph sub = oracle::make_graph((int)idx.size());
-    for (size_t a = 0; a < idx.size(); ++a) { sub.label[a] = g.label[idx[a]]; sub.vval[a] = cur.vval[idx[a]]; for (size_t b = 0; b < idx.size(); ++b) sub.w[a][b] = cur.w[idx[a]][idx[b]]; }
-    before = oracle::flag_complex(sub, max_dim);
+    before = model();
     Cx got = dump(st);
     c.count("cmp.expansion");
-    if (got != before) { c.violation("expansion.clique_complex", sig + diff_class(got, before), "insert_simplex skeleton + expansion differs from the clique complex:" + diff(got, before)); return; }
-    if (before.size() > idx.size() + 2) c.count("hist.one_shot_prefix_has_triangles_or_more");
+    if (got != before) { c.violation("expansion.clique_complex", sig() + diff_class(got, before), "insert_simplex skeleton + expansion differs from the clique complex:" + diff(got, before)); return; }
+    size_t nv = 0; for (char p : present) nv += p;
+    if (before.size() > nv + 2) c.count("hist.one_shot_prefix_has_triangles_or_more");
   }
-  for (size_t t = prefix; t < items.size(); ++t) {
-    auto& it = items[t];
-    std::vector<typename ST::Simplex_handle> added;
-    c.log("insert_edge_as_flag " + vh::str(g.label[it.i]) + " " + vh::str(g.label[it.j]) + " f=" + vh::str(it.v));
-    st.insert_edge_as_flag((VH)g.label[it.i], (VH)g.label[it.j], (FV)it.v, max_dim, added);
+  std::vector<Item> queue(items.begin() + prefix, items.end());
+  std::vector<SH> added;
+  if (accumulate) added.assign(1 + r.below(3), st.null_simplex());  // not empty on entry
+  int removal_ops = 0; size_t deferrals = 0;
+  auto to_vh = [&](const Simplex& s) { return stc::to_vh<ST>(s); };
+  // removes the star of `face` top-down, every simplex through remove_maximal_simplex while it is maximal
+  auto remove_star = [&](const Simplex& face) {
+    std::vector<Simplex> star; for (auto& kv : before) if (std::includes(kv.first.begin(), kv.first.end(), face.begin(), face.end())) star.push_back(kv.first);
+    std::stable_sort(star.begin(), star.end(), [](const Simplex& a, const Simplex& b) { return a.size() > b.size(); });
+    for (auto& s : star) {
+      SH sh = st.find(to_vh(s));
+      if (sh == st.null_simplex()) { c.violation("incremental.simplex_set", sig() + ",missing_before_removal", "find(" + oracle::show(s) + ") fails before its removal"); return false; }
+      st.remove_maximal_simplex(sh);
+      c.count("op.remove_maximal_simplex");
+    }
+    return true;
+  };
+  auto requeue = [&](const Item& it, size_t from) { queue.insert(queue.begin() + from + r.below(queue.size() - from + 1), it); };
+  for (size_t t = 0; t < queue.size(); ++t) {
+    // ---- a removal step now and then
+    if (removals && removal_ops < 6 && !before.empty() && r.chance(1, 4)) {
+      ++removal_ops;
+      unsigned k = (unsigned)r.below(5);
+      std::vector<std::pair<int, int>> es; for (int i = 0; i < n; ++i) for (int j = i + 1; j < n; ++j) if (present[i] && present[j] && cur.has_edge(i, j) && before.count(Simplex{g.label[i], g.label[j]})) es.emplace_back(i, j);
+      std::vector<int> vs; for (int i = 0; i < n; ++i) if (present[i]) vs.push_back(i);
+      if (k < 2 && !es.empty()) {  // the star of an edge
+        auto e = es[r.below(es.size())];
+        c.log("remove the star of edge " + vh::str(g.label[e.first]) + " " + vh::str(g.label[e.second]));
+        if (!remove_star(Simplex{g.label[e.first], g.label[e.second]})) return;
+        c.count("op.remove_edge_star");
+        Item it{e.first, e.second, cur.w[e.first][e.second]};
+        cur.w[e.first][e.second] = cur.w[e.second][e.first] = std::numeric_limits<double>::quiet_NaN();
+        if (r.chance(2, 3)) requeue(it, t);
+      } else if (k < 3 && !vs.empty()) {  // the star of a vertex
+        int i = vs[r.below(vs.size())];
+        c.log("remove the star of vertex " + vh::str(g.label[i]));
+        if (!remove_star(Simplex{g.label[i]})) return;
+        c.count("op.remove_vertex_star");
+        bool back = r.chance(1, 2);
+        std::vector<Item> again;
+        for (int j = 0; j < n; ++j) if (j != i && cur.has_edge(i, j)) { again.push_back({std::min(i, j), std::max(i, j), cur.w[i][j]}); cur.w[i][j] = cur.w[j][i] = std::numeric_limits<double>::quiet_NaN(); }
+        present[i] = 0;
+        if (back) { for (auto& e : again) requeue(e, t); requeue(Item{i, i, cur.vval[i]}, t); } else dead[i] = 1;
+      } else {  // prune_above_filtration (the values have to be the intended ones first: documented monotonisation)
+        if (!exact) {
+          c.log("make_filtration_non_decreasing");
+          st.make_filtration_non_decreasing(); exact = true;
+          Cx got = dump(st);
+          c.count("cmp.incremental_after_monotonisation");
+          if (got != before) { c.violation("incremental.values_after_monotonisation", sig() + diff_class(got, before), "after make_filtration_non_decreasing:" + diff(got, before)); return; }
+        }
+        double thr = sc * 0.5 * (double)r.below(6);
+        c.log("prune_above_filtration " + vh::str(thr));
+        st.prune_above_filtration((FV)thr);
+        c.count("op.prune_above_filtration");
+        std::vector<Item> again;
+        for (int i = 0; i < n; ++i) for (int j = i + 1; j < n; ++j) if (cur.has_edge(i, j) && (cur.w[i][j] > thr || (present[i] && cur.vval[i] > thr) || (present[j] && cur.vval[j] > thr))) { if (present[i] && present[j]) again.push_back({i, j, cur.w[i][j]}); cur.w[i][j] = cur.w[j][i] = std::numeric_limits<double>::quiet_NaN(); }
+        for (int i = 0; i < n; ++i) if (present[i] && cur.vval[i] > thr) { present[i] = 0; again.push_back({i, i, cur.vval[i]}); }
+        if (ST::Options::store_filtration) { for (auto& it : again) requeue(it, t); }
+        if (in_order) std::stable_sort(queue.begin() + t, queue.end(), by_value);
+      }
+      removed_any = true;
+      Cx after = model();
+      if (after.size() < before.size()) c.count("hist.removal_step_removed_something");
+      if (cxdim(after) < cxdim(before) && !after.empty()) c.count("hist.removal_lowered_dimension");
+      if (!observe(after, "removal")) return;
+      before = after;
+      if (t >= queue.size()) break;
+    }
+    Item it = queue[t];
+    if (dead[it.i] || dead[it.j]) { c.count("skip.edge_of_removed_vertex"); continue; }
+    if (it.i != it.j && (!present[it.i] || !present[it.j])) {  // documented precondition: an edge after its two vertices
+      if (++deferrals > 400) { c.count("skip.edge_without_vertices"); continue; }
+      queue.push_back(it); c.count("skip.edge_deferred_until_vertices"); continue;
+    }
+    if (it.i == it.j && present[it.i]) { c.count("skip.vertex_already_present"); continue; }
+    if (it.i != it.j && cur.has_edge(it.i, it.j)) { c.count("skip.edge_already_present"); continue; }
+    const bool swapped = it.i != it.j && r.chance(1, 2);
+    if (!accumulate) added.clear();
+    const size_t from = added.size();
+    if (from > 0) c.count("op.insert_with_nonempty_added_simplices");
+    if (st.upper_bound_dimension() > cxdim(before) && !before.empty()) { stale_insertion = true; c.count("op.insert_under_stale_bound"); }
+    c.log("insert_edge_as_flag " + vh::str(g.label[swapped ? it.j : it.i]) + " " + vh::str(g.label[swapped ? it.i : it.j]) + " f=" + vh::str(it.v));
+    if (it.i != it.j && it.v < max_present()) exact = false;
+    st.insert_edge_as_flag((VH)g.label[swapped ? it.j : it.i], (VH)g.label[swapped ? it.i : it.j], (FV)it.v, max_dim, added);
     c.count(it.i == it.j ? "op.insert_vertex_as_flag" : "op.insert_edge_as_flag");
+    if (swapped) c.count("op.insert_edge_as_flag_swapped");
+    if (removed_any) c.count("op.insert_after_removal");
     if (it.i == it.j) { present[it.i] = 1; cur.vval[it.i] = it.v; } else cur.w[it.i][it.j] = cur.w[it.j][it.i] = it.v;
     // current model: cliques of the current graph restricted to present vertices
-    WGraph sub = oracle::make_graph(0);
-    std::vector<int> idx; for (int i = 0; i < g.n(); ++i) if (present[i]) idx.push_back(i);
-    sub = oracle::make_graph((int)idx.size());
-    for (size_t a = 0; a < idx.size(); ++a) { sub.label[a] = g.label[idx[a]]; sub.vval[a] = cur.vval[idx[a]]; for (size_t b = 0; b < idx.size(); ++b) sub.w[a][b] = cur.w[idx[a]][idx[b]]; }
-    Cx after = oracle::flag_complex(sub, max_dim);
-    // (a) reported simplices = exactly the created ones (as a set, no duplicates, handles valid)
-    std::set<Simplex> rep; bool dup = false;
-    for (auto sh : added) { if (!rep.insert(stc::word(st, sh)).second) dup = true; }
-    std::set<Simplex> created; for (auto& kv : after) if (!before.count(kv.first)) created.insert(kv.first);
+    Cx after = model();
+    // (a) reported simplices = exactly the created ones (as a set, no duplicates, handles valid), appended after what was there
     c.count("cmp.added_simplices");
-    if (dup) { c.violation("incremental.added_duplicates", sig, "added_simplices lists a simplex twice"); return; }
-    if (rep != created) { c.violation("incremental.added_simplices", sig + (rep.size() < created.size() ? ",fewer" : rep.size() > created.size() ? ",more" : ",different"), "added_simplices=" + stc::show_set(rep) + " created=" + stc::show_set(created)); return; }
-    // (b) simplex set after each step
-    Cx got = dump(st);
-    std::set<Simplex> gs, ws; for (auto& kv : got) gs.insert(kv.first); for (auto& kv : after) ws.insert(kv.first);
-    c.count("cmp.incremental_set");
-    if (gs != ws) { c.violation("incremental.simplex_set", sig, "after insertion: " + diff(got, after)); return; }
-    // (c) in filtration order the values are right at every step
-    if (in_order && got != after) { c.violation("incremental.values_in_order", sig + diff_class(got, after), "values differ:" + diff(got, after)); return; }
+    if (added.size() < from) { c.violation("incremental.added_simplices", sig() + ",container_emptied", "added_simplices had " + vh::str(from) + " entries on entry and has " + vh::str(added.size()) + " now"); return; }
+    std::set<Simplex> rep; bool dup = false;
+    for (size_t a = from; a < added.size(); ++a) { if (!rep.insert(stc::word(st, added[a])).second) dup = true; }
+    if (from > 0) c.count("cmp.added_simplices_appended_tail");
+    std::set<Simplex> created; for (auto& kv : after) if (!before.count(kv.first)) created.insert(kv.first);
+    if (dup) { c.violation("incremental.added_duplicates", sig(), "added_simplices lists a simplex twice"); return; }
+    if (rep != created) { c.violation("incremental.added_simplices", sig() + (from > 0 ? ",appended" : "") + (rep.size() < created.size() ? ",fewer" : rep.size() > created.size() ? ",more" : ",different"), "added_simplices=" + stc::show_set(rep) + " created=" + stc::show_set(created)); return; }
+    // (b) simplex set, (c) values when the insertions so far were in filtration order, (d) dimension
+    if (!observe(after, "insertion")) return;
     before = after;
   }
-  if (!in_order) {
-    st.make_filtration_non_decreasing();
+  if (!exact) {
+    c.log("make_filtration_non_decreasing");
+    st.make_filtration_non_decreasing(); exact = true;
     Cx got = dump(st);
     c.count("cmp.incremental_after_monotonisation");
-    if (got != before) { c.violation("incremental.values_after_monotonisation", sig + diff_class(got, before), "after make_filtration_non_decreasing:" + diff(got, before)); return; }
+    if (got != before) { c.violation("incremental.values_after_monotonisation", sig() + diff_class(got, before), "after make_filtration_non_decreasing:" + diff(got, before)); return; }
   }
-  // (d) same complex as the one-shot route on the same option set (labels 0..n-1 only)
-  bool contiguous_labels = true; for (int i = 0; i < g.n(); ++i) if (g.label[i] != i) contiguous_labels = false;
-  if (contiguous_labels && max_dim >= 0) {
-    ST one; insert_graph(one, g); one.expansion(max_dim);
+  {  // the final tree against the model: dimension(), num_simplices(), operator== with a tree built from the model
+    Cx got = dump(st);
+    if (got != before) { c.violation("incremental.values_in_order", sig() + diff_class(got, before), "final complex differs:" + diff(got, before)); return; }
+    if (!tree_checks(c, st, before, "incremental", csig())) return;
+  }
+  // (e) same complex as the one-shot route on the same option set (labels 0..n-1 only)
+  WGraph fin = induced(cur, present);
+  if (contiguous_labels(fin) && max_dim >= 0) {
+    ST one; insert_graph(one, fin); one.expansion(max_dim);
     c.count("cmp.routes_agree");
-    if (dump(one) != dump(st)) { c.violation("routes.one_shot_vs_incremental", sig + cls(dump(one), dump(st), g, max_dim), "one-shot expansion and incremental insertion differ:" + diff(dump(one), dump(st))); return; }
+    Cx d1 = dump(one), d2 = dump(st);
+    if (d1 != d2) { c.violation("routes.one_shot_vs_incremental", sig() + cls(d1, d2, fin, max_dim), "one-shot expansion and incremental insertion differ:" + diff(d1, d2)); return; }
+    c.count("cmp.routes_operator_eq");
+    one.dimension();
+    if (!(one == st)) { c.violation("routes.one_shot_vs_incremental", csig() + ",operator==" + (d1.empty() ? ",empty_complex" : ""), "the one-shot tree and the incremental tree hold the same simplices and values but compare unequal"); return; }
   }
-  if (oracle::clique_number(g) >= 3) c.nontrivial(vh::hash_str(show_graph(g) + vh::str(max_dim) + optname + (in_order ? "o" : "r")));
-  c.sample("{\"opts\":\"" + optname + "\",\"route\":\"incremental\",\"graph\":\"" + vh::jesc(show_graph(g)) + "\"}");
+  if (oracle::clique_number(g) >= 3) c.nontrivial(vh::hash_str(show_graph(g) + vh::str(max_dim) + optname + (in_order ? "o" : "r") + (removals ? "x" : "")));
+  c.sample("{\"opts\":\"" + optname + "\",\"route\":\"incremental\",\"graph\":\"" + vh::jesc(show_graph(g)) + "\",\"removal_steps\":" + vh::str(removal_ops) + "}");
 }
 
 // route 6: Rips builders
@@ -246,43 +591,183 @@ template <class Options>
 void run_rips(vh::Case& c, const std::string& optname) {
   typedef Gudhi::Simplex_tree<Options> ST;
   typedef typename ST::Filtration_value FV;
+  typedef std::vector<double> Point;
   vh::Rng& r = c.rng;
-  int n = 1 + (int)r.below(9), dimp = 1 + (int)r.below(3);
-  std::vector<std::vector<double>> pts(n, std::vector<double>(dimp));
+  constexpr bool integral = std::is_integral<FV>::value;
+  int n = r.chance(1, 25) ? 0 : 1 + (int)r.below(9), dimp = 1 + (int)r.below(3);
+  std::vector<Point> pts(n, Point(dimp));
   for (auto& p : pts) for (auto& x : p) x = (double)r.range(-3, 3);
+  // Euclidean distance; an integral Filtration_value gets the (exactly representable) L1 distance through a user functor
+  auto l1 = [](const Point& a, const Point& b) { double s = 0; for (size_t k = 0; k < a.size(); ++k) s += std::fabs(a[k] - b[k]); return (FV)s; };
   std::vector<std::vector<FV>> D(n, std::vector<FV>(n, 0));
   std::vector<double> dists;
-  for (int i = 0; i < n; ++i) for (int j = 0; j < n; ++j) { double s = 0; for (int k = 0; k < dimp; ++k) s += (pts[i][k] - pts[j][k]) * (pts[i][k] - pts[j][k]); D[i][j] = (FV)std::sqrt(s); if (i < j) dists.push_back((double)D[i][j]); }
+  for (int i = 0; i < n; ++i) for (int j = 0; j < n; ++j) {
+    if (integral) D[i][j] = l1(pts[i], pts[j]);
+    else { double s = 0; for (int k = 0; k < dimp; ++k) s += (pts[i][k] - pts[j][k]) * (pts[i][k] - pts[j][k]); D[i][j] = (FV)std::sqrt(s); }
+    if (i < j) dists.push_back((double)D[i][j]);
+  }
   double thr;
   int tk = (int)r.below(5);
   if (dists.empty()) thr = 1.0;
-  else if (tk == 0) thr = dists[r.below(dists.size())];                         // exactly a distance
-  else if (tk == 1) thr = dists[r.below(dists.size())] + 0.01;                  // between
-  else if (tk == 2) thr = -1.0;                                                 // below everything
-  else if (tk == 3) thr = std::numeric_limits<double>::infinity();
-  else thr = 0.5 * (double)r.below(12);
-  int max_dim = r.chance(1, 20) ? 0 : 1 + (int)r.below(5);
-  bool from_matrix = r.chance(1, 2);
+  else if (tk == 0) thr = dists[r.below(dists.size())];                                       // exactly a distance
+  else if (tk == 1) thr = dists[r.below(dists.size())] + (integral ? 1 : 0.01);               // between
+  else if (tk == 2) thr = -1.0;                                                               // below everything
+  else if (tk == 3) thr = integral ? 1000.0 : std::numeric_limits<double>::infinity();
+  else thr = integral ? (double)r.below(12) : 0.5 * (double)r.below(12);
+  int max_dim = r.chance(1, 20) ? 0 : r.chance(1, 12) ? extreme_dim(r) : 1 + (int)r.below(5);
+  // source: 0 points, 1 lower-triangular matrix, 2 full square matrix, 3 compute_proximity_graph + insert_graph + expansion
+  int src = (int)r.below(6); if (src >= 4) src -= 4;
+  bool twice = src != 3 && r.chance(1, 3);  // the same Rips_complex object creates a second complex
+  static const char* sname[] = {"points", "matrix", "square_matrix", "proximity_graph"};
   std::ostringstream ps; for (auto& p : pts) ps << vh::vstr(p);
-  c.log("[" + optname + "] rips " + std::string(from_matrix ? "distance matrix" : "points") + " " + ps.str() + " thr=" + vh::str(thr) + " max_dim=" + vh::str(max_dim));
+  c.log("[" + optname + "] rips " + sname[src] + " " + ps.str() + " thr=" + vh::str(thr) + " max_dim=" + vh::str(max_dim) + (twice ? " two complexes" : ""));
+  if (n == 0) c.count("graph.empty");
+  if (max_dim < 0 || max_dim >= 100) c.count("arg.extreme_max_dim");
   WGraph g = oracle::make_graph(n);
-  for (int i = 0; i < n; ++i) for (int j = i + 1; j < n; ++j) if ((double)D[i][j] <= (double)(FV)thr) g.w[i][j] = g.w[j][i] = (double)D[i][j];
-  Cx want = oracle::flag_complex(g, max_dim);
-  ST st;
-  if (from_matrix) {
+  for (int i = 0; i < n; ++i) for (int j = i + 1; j < n; ++j) if ((double)D[i][j] <= (double)(FV)thr) g.w[i][j] = g.w[j][i] = ST::Options::store_filtration ? (double)D[i][j] : 0.0;
+  Cx want = oracle::flag_complex(g, one_shot_model_dim(max_dim));
+  ST st, st_second;
+  auto create = [&](auto& rc) { rc.create_complex(st, max_dim); if (twice) rc.create_complex(st_second, max_dim); };
+  if (src == 1) {
     std::vector<std::vector<FV>> lower(n);
     for (int i = 0; i < n; ++i) for (int j = 0; j < i; ++j) lower[i].push_back(D[i][j]);
     Gudhi::rips_complex::Rips_complex<FV> rc(lower, (FV)thr);
-    rc.create_complex(st, max_dim);
+    create(rc);
+  } else if (src == 2) {
+    Gudhi::rips_complex::Rips_complex<FV> rc(D, (FV)thr);
+    create(rc);
+  } else if (src == 0) {
+    if constexpr (integral) { Gudhi::rips_complex::Rips_complex<FV> rc(pts, (FV)thr, l1); create(rc); }
+    else { Gudhi::rips_complex::Rips_complex<FV> rc(pts, (FV)thr, Gudhi::Euclidean_distance()); create(rc); }
   } else {
-    Gudhi::rips_complex::Rips_complex<FV> rc(pts, (FV)thr, Gudhi::Euclidean_distance());
-    rc.create_complex(st, max_dim);
+    if constexpr (integral) { auto pg = Gudhi::compute_proximity_graph<ST>(pts, (FV)thr, l1); st.insert_graph(pg); }
+    else { auto pg = Gudhi::compute_proximity_graph<ST>(pts, (FV)thr, Gudhi::Euclidean_distance()); st.insert_graph(pg); }
+    st.expansion(max_dim);
   }
   Cx got = dump(st);
-  std::string sig = "opts=" + optname + (from_matrix ? ",matrix" : ",points") + ",thr_kind=" + vh::str(tk);
-  c.count(from_matrix ? "cmp.rips_matrix" : "cmp.rips_points");
-  if (got != want) { c.violation("rips.threshold_graph_clique_complex", sig + cls(got, want, g, max_dim), "Rips complex differs from the clique complex of the threshold graph:" + diff(got, want)); return; }
+  std::string sig = "opts=" + optname + "," + (src == 1 ? "matrix" : sname[src]) + ",thr_kind=" + vh::str(tk) + (max_dim < 0 ? ",negative_max_dim" : max_dim >= 100 ? ",huge_max_dim" : "");
+  static const char* cname[] = {"cmp.rips_points", "cmp.rips_matrix", "cmp.rips_square_matrix", "cmp.rips_proximity_graph"};
+  c.count(cname[src]);
+  if (got != want) { c.violation("rips.threshold_graph_clique_complex", sig + cls(got, want, g, max_dim), "Rips complex differs from the clique complex of the threshold graph:" + diff(got, want)); if (!(max_dim == 0 && only_graph_edges_kept(got, want, g))) return; }
+  const std::string tsig = "opts=" + optname + "," + (src == 1 ? "matrix" : sname[src]);
+  if (!tree_checks(c, st, got, "rips", tsig)) return;
+  if (twice) {
+    c.count("cmp.rips_second_create_complex");
+    Cx got2 = dump(st_second);
+    if (got2 != got) { c.violation("rips.second_create_complex", sig + diff_class(got2, got), "the second complex created by the same Rips_complex differs from the first:" + diff(got2, got)); return; }
+    if (!(st_second == st)) { c.violation("rips.second_create_complex", tsig + ",operator==", "the two complexes created by the same Rips_complex compare unequal"); return; }
+  }
   if (want.size() > (size_t)n + 2) c.nontrivial(vh::hash_str(ps.str() + vh::str(thr) + vh::str(max_dim) + optname));
+}
+
+// mid-size graphs (10-40 vertices, beyond the 2^n oracle): the recursive enumeration is the model.  Routes 1, 2, 5 and, on
+// link_nodes_by_label option sets, the incremental route with the created simplices derived from the link of the new edge.
+template <class Options>
+void run_mid(vh::Case& c, const std::string& optname) {
+  typedef Gudhi::Simplex_tree<Options> ST;
+  typedef typename ST::Simplex_handle SH;
+  typedef typename ST::Vertex_handle VH;
+  typedef typename ST::Filtration_value FV;
+  vh::Rng& r = c.rng;
+  const double sc = value_scale<ST>();
+  int n = 10 + (int)r.below(31);
+  unsigned pm = n <= 16 ? 400 + 100 * (unsigned)r.below(5) : n <= 28 ? 200 + 60 * (unsigned)r.below(5) : 100 + 40 * (unsigned)r.below(5);
+  WGraph g = random_graph_np(r, n, pm, sc);
+  int max_dim = r.chance(1, 10) ? (r.chance(1, 2) ? INT_MAX : 100) : 2 + (int)r.below(4);
+  SkelPlan plan = make_plan(r, g, Options::contiguous_vertices);
+  c.log("[" + optname + "] mid graph " + show_graph(g) + " max_dim=" + vh::str(max_dim) + " skeleton=" + plan.name());
+  Cx want = clique_enum(g, one_shot_model_dim(max_dim));
+  if (want.size() > 5000) { c.count("skip.mid_too_many_cliques"); return; }
+  count_plan(c, plan, g);
+  c.count("mid.graphs"); c.count("mid.cliques", want.size());
+  int cn = cxdim(clique_enum(g, -1)) + 1;
+  if (cn >= 4) c.count("mid.clique_number_4plus");
+  std::string gsig = "opts=" + optname + ",mid_size" + dim_class(max_dim, cn) + ",skel=" + plan.name();
+  ST st1, st2;
+  build_skeleton(c, st1, g, plan); st1.expansion(max_dim);
+  { Cx got = dump(st1); c.count("cmp.expansion"); if (got != want) { c.violation("expansion.clique_complex", gsig + diff_class(got, want), "skeleton+expansion differs from the clique complex:" + diff(got, want)); return; } if (!tree_checks(c, st1, got, "expansion", "opts=" + optname + ",mid_size")) return; }
+  build_skeleton(c, st2, g, plan); st2.expansion_with_blockers(max_dim, [](SH) { return false; });
+  { Cx got = dump(st2); c.count("cmp.expansion_never_blocking"); if (got != want) { c.violation("blockers.never_blocking", gsig + diff_class(got, want), "expansion_with_blockers(never) differs from the clique complex:" + diff(got, want)); return; } if (!tree_checks(c, st2, got, "blockers", "opts=" + optname + ",mid_size")) return; }
+  c.count("cmp.routes_operator_eq");
+  if (!(st1 == st2)) { c.violation("routes.expansion_vs_never_blocking", gsig + ",operator==", "the trees of expansion and of expansion_with_blockers(never) compare unequal"); return; }
+  {
+    Blocker bl{r.chance(2, 3) ? 0 : 2, 0, 3 + (unsigned)r.below(3)};
+    bl.customise = ST::Options::store_filtration && r.chance(1, 2);
+    bl.bump_unit = std::is_integral<FV>::value ? 1.0 : 0.25;
+    ST st; build_skeleton(c, st, g, plan);
+    Cx seen; bool twice = false;
+    st.expansion_with_blockers(max_dim, [&](SH sh) {
+      Simplex s = stc::word(st, sh);
+      if (!seen.emplace(s, (double)st.filtration(sh)).second) twice = true;
+      if (bl(s)) return true;
+      if (bl.customise) st.assign_filtration(sh, (FV)((double)st.filtration(sh) + bl.bump(s)));
+      return false;
+    });
+    Cx got = dump(st), seen_want;
+    Cx wantb = blocked_model(want, bl, &seen_want);
+    std::string bsig = gsig + ",pred=" + bl.name() + (bl.customise ? ",customised_values" : "");
+    c.count("cmp.expansion_with_blockers");
+    if (wantb.size() < want.size() && cxdim(wantb) >= 2) c.count("mid.blocked_and_higher_survives");
+    if (got != wantb) { c.violation("blockers.maximal_unblocked", bsig + diff_class(got, wantb), "expansion_with_blockers(" + bl.name() + ") differs from the largest blocked-simplex-free subcomplex:" + diff(got, wantb)); return; }
+    c.count("cmp.blocker_calls", seen.size());
+    if (twice) { c.violation("blockers.oracle_called_twice", bsig, "the blocker oracle was called twice on one simplex"); return; }
+    if (seen != seen_want) { c.violation("blockers.oracle_calls", bsig + diff_class(seen, seen_want), "simplices / values handed to the oracle differ:" + diff(seen, seen_want)); return; }
+    if (!tree_checks(c, st, got, "blockers", "opts=" + optname + ",mid_size,pred=" + bl.name())) return;
+  }
+  if constexpr (Options::link_nodes_by_label) {
+    // sparse labels (with the extremes), same graph
+    if (r.chance(1, 2)) { std::set<long> s; s.insert((long)INT_MAX); s.insert((long)INT_MIN); while ((int)s.size() < n) { long x = (long)(int32_t)(uint32_t)r.next(); if (x != -1) s.insert(x); } int i = 0; for (long x : s) g.label[i++] = x; c.count("graph.extreme_labels"); }
+    int dm = r.chance(1, 3) ? -1 : max_dim;
+    Cx all = clique_enum(g, incremental_model_dim(dm));
+    if (all.size() > 5000) { c.count("skip.mid_too_many_cliques"); return; }
+    bool in_order = r.chance(1, 2), accumulate = r.chance(1, 2);
+    std::string isig = "opts=" + optname + ",mid_size" + (in_order ? ",filtration_order" : ",random_order") + (dm == -1 ? ",max_dim=-1" : "");
+    c.log(std::string("incremental dim_max=") + vh::str(dm) + (in_order ? " filtration order" : " random order") + " labels=" + vh::vstr(g.label));
+    struct Item { int i, j; double v; };
+    std::vector<Item> items;
+    for (int i = 0; i < n; ++i) items.push_back({i, i, g.vval[i]});
+    for (int i = 0; i < n; ++i) for (int j = i + 1; j < n; ++j) if (g.has_edge(i, j)) items.push_back({i, j, g.w[i][j]});
+    r.shuffle(items);
+    std::stable_sort(items.begin(), items.end(), [](const Item& a, const Item& b) { return (a.i == a.j) > (b.i == b.j); });  // vertices first
+    if (in_order) std::stable_sort(items.begin(), items.end(), [](const Item& a, const Item& b) { if (a.v != b.v) return a.v < b.v; return (a.i == a.j) > (b.i == b.j); });
+    ST st; std::set<Simplex> have; WGraph cur = oracle::make_graph(n); cur.label = g.label;
+    std::vector<SH> added; size_t step = 0;
+    for (auto& it : items) {
+      if (!accumulate) added.clear();
+      size_t from = added.size();
+      bool swapped = it.i != it.j && r.chance(1, 2);
+      st.insert_edge_as_flag((VH)g.label[swapped ? it.j : it.i], (VH)g.label[swapped ? it.i : it.j], (FV)it.v, dm, added);
+      c.count(it.i == it.j ? "op.insert_vertex_as_flag" : "op.insert_edge_as_flag");
+      if (swapped) c.count("op.insert_edge_as_flag_swapped");
+      if (from > 0) c.count("op.insert_with_nonempty_added_simplices");
+      ++step;
+      std::set<Simplex> created;
+      if (it.i == it.j) { cur.vval[it.i] = it.v; created.insert(Simplex{g.label[it.i]}); }
+      else {
+        cur.w[it.i][it.j] = cur.w[it.j][it.i] = it.v;
+        // cliques containing the new edge = the edge joined with every clique (also the empty one) of its common neighbourhood
+        std::vector<char> common(n, 0); for (int x = 0; x < n; ++x) if (x != it.i && x != it.j && cur.has_edge(x, it.i) && cur.has_edge(x, it.j)) common[x] = 1;
+        Simplex e{g.label[it.i], g.label[it.j]}; std::sort(e.begin(), e.end()); created.insert(e);
+        if (dm == -1 || dm >= 2) for (auto& kv : clique_enum(induced(cur, common), dm == -1 ? -1 : dm - 2)) { Simplex s = kv.first; s.insert(s.end(), e.begin(), e.end()); std::sort(s.begin(), s.end()); created.insert(s); }
+      }
+      std::set<Simplex> rep; bool dup = false;
+      if (added.size() < from) { c.violation("incremental.added_simplices", isig + ",container_emptied", "added_simplices shrank"); return; }
+      for (size_t a = from; a < added.size(); ++a) if (!rep.insert(stc::word(st, added[a])).second) dup = true;
+      c.count("cmp.added_simplices");
+      if (from > 0) c.count("cmp.added_simplices_appended_tail");
+      if (dup) { c.violation("incremental.added_duplicates", isig, "added_simplices lists a simplex twice"); return; }
+      if (rep != created) { c.violation("incremental.added_simplices", isig + (from > 0 ? ",appended" : "") + (rep.size() < created.size() ? ",fewer" : rep.size() > created.size() ? ",more" : ",different"), "step " + vh::str(step) + ": added_simplices has " + vh::str(rep.size()) + " simplices, created " + vh::str(created.size())); return; }
+      for (auto& s : created) have.insert(s);
+      if (step % 16 == 0) { std::set<Simplex> gs; for (auto& kv : dump(st)) gs.insert(kv.first); c.count("cmp.incremental_set"); if (gs != have) { c.violation("incremental.simplex_set", isig, "simplex set differs at step " + vh::str(step)); return; } }
+    }
+    if (!in_order) { st.make_filtration_non_decreasing(); c.count("cmp.incremental_after_monotonisation"); }
+    Cx got = dump(st);
+    c.count("mid.incremental");
+    if (got != all) { c.violation(in_order ? "incremental.values_in_order" : "incremental.values_after_monotonisation", isig + diff_class(got, all), "incremental result differs from the clique complex:" + diff(got, all)); return; }
+    if (!tree_checks(c, st, got, "incremental", "opts=" + optname + ",mid_size")) return;
+  }
+  if (cn >= 3) c.nontrivial(vh::hash_str(show_graph(g) + vh::str(max_dim) + optname));
+  c.sample("{\"opts\":\"" + optname + "\",\"route\":\"mid\",\"n\":" + vh::str(n) + ",\"max_dim\":" + vh::str(max_dim) + ",\"cliques\":" + vh::str(want.size()) + "}");
 }
 
 }  // namespace c04
